@@ -23,6 +23,7 @@ type Recorder struct {
 	Hijacked      bool
 	HijackBuf     bytes.Buffer // what was written to the hijacked connection
 	Informational []int        // 1xx statuses sent before the final one
+	RefuseHijack  bool         // Hijack returns an error (HTTP/2, an already hijacked connection, ...)
 }
 
 type hijackConn struct {
@@ -35,6 +36,9 @@ func (h hijackConn) Close() error                { return nil }
 
 // Hijack implements http.Hijacker: the "connection" records what is written to it.
 func (r *Recorder) Hijack() (net.Conn, *bufio.ReadWriter, error) {
+	if r.RefuseHijack {
+		return nil, nil, http.ErrNotSupported
+	}
 	r.Hijacked = true
 	c := hijackConn{r: r}
 	return c, bufio.NewReadWriter(bufio.NewReader(bytes.NewReader(nil)), bufio.NewWriter(c)), nil
@@ -110,3 +114,12 @@ func itoa(i int) string {
 	}
 	return string(b[p:])
 }
+
+// Plain hides every optional interface of the recorder: a client writer that is
+// only an http.ResponseWriter and an http.Flusher (no Hijacker, no CloseNotifier).
+type Plain struct{ R *Recorder }
+
+func (p Plain) Header() http.Header         { return p.R.Header() }
+func (p Plain) Write(b []byte) (int, error) { return p.R.Write(b) }
+func (p Plain) WriteHeader(code int)        { p.R.WriteHeader(code) }
+func (p Plain) Flush()                      { p.R.Flush() }
